@@ -181,9 +181,6 @@ func c07ReuseCase(c *core.Ctx, idx int) {
 		current = t
 		mu.Unlock()
 		t := t
-		if kind == "caller panics after registering" {
-			run = db.Update // (bbolt's Batch runs its functions on another goroutine: a panic there cannot be recovered here)
-		}
 		guarded := func(ctx boltz.MutateContext, fn func(boltz.MutateContext) error) (err error) {
 			// the caller recovers from a panic of its own transaction function and goes on with the context
 			defer func() {
